@@ -92,7 +92,10 @@ def _build(rng):
     esc = family == "general" or rng.random() < 0.3
     strings = [_string(rng, entries, escapes=esc) for _ in range(5)]
     mode = rng.choice(["api", "api", "program", "program", "program-sibling-only", "program-expansions"])
-    return {"family": family, "entries": entries, "other": other, "strings": strings, "mode": mode}
+    if rng.random() < 0.5 and entries:
+        # make sure the last entry of the file is used (the file may end without a line terminator)
+        strings[0] = strings[0] + entries[-1][0]
+    return {"family": family, "entries": entries, "other": other, "strings": strings, "mode": mode, "no_final_newline": rng.random() < 0.35}
 
 
 def strategy(tier):
@@ -128,6 +131,9 @@ def run_case(case) -> Outcome:
         return Outcome(skip="empty table")
     wd = driver.workdir()
     files = {"t0.tbl": T.table_file(entries), "t1.tbl": T.table_file(other)}
+    if case.get("no_final_newline"):
+        files = {k: v[:-1] if v.endswith("\n") else v for k, v in files.items()}
+        labels.append("table-without-final-newline")
     if case["mode"] == "api":
         from script import Table
 
